@@ -115,6 +115,12 @@ func (run *FuncRun) enterLoopHeader(st *State, b *ssa.BasicBlock, ord int) bool 
 		}
 		fr.loopEntry[b.Index] = le
 		fr.loopAssign[b.Index] = as
+		if as.allBelow != nil {
+			// the body calls a callback: its effect is absorbed first, and the
+			// function's own frame is measured from there
+			run.callbackEpoch(st, as)
+			st.newEpoch(st.Snap(), withoutCallback(as))
+		} else {
 		// (the loop's assigns clause is what is assumed here; it is checked
 		// against the callees' actual frames at every back edge)
 		// components the loop body cannot touch (statically) keep their version
@@ -127,6 +133,7 @@ func (run *FuncRun) enterLoopHeader(st *State, b *ssa.BasicBlock, ord int) bool 
 			}
 			return true
 		})
+		}
 	} else {
 		st.HavocAlloc()
 		for _, name := range sortedKeys(hs.comps) {
